@@ -241,6 +241,21 @@ CHECKS['C14'] = {
                  'direct computations; print / load round trip on concrete ledgers',
 }
 
+CHECKS['C17'] = {
+    'text': 'numberify_results on result tables of 2-3 rows with a plain column (symbolic ints / NULL) and Amount, Position '
+            'or Inventory columns whose cells range over palettes (NULL, zero, negative, several currencies, two lots of one '
+            'commodity, a plain lot next to a lot at cost, empty and sold-out inventories), with and without a display '
+            'formatter, against the per-currency units oracle written from the property: plain columns / row count / order '
+            'untouched, one Decimal column per occurring currency named `name (CUR)` ordered by decreasing frequency, each '
+            'cell the units summed over lots (quantised with a formatter), nothing dropped or invented; currencies unknown '
+            'to the formatter are left unquantised.',
+    'design_ref': 'DESIGN.md section 5, C17',
+    'note': _COMMON_NOTE + ' Amount-like cells are enumerated palette values (R4); the conversion itself runs natively on '
+            'them, the solver ranges over the cell selectors, NULL-ness and option bits.',
+    'technique': 'solver-enumerated cell assignments (CrossHair/z3 path tree) over numberify_results with a per-currency '
+                 'units oracle',
+}
+
 NOT_APPLICABLE = {
     pid: 'check under construction in this session; not claimed yet'
     for pid in ['C06', 'C11', 'C12', 'C13', 'C14', 'C16', 'C17', 'C18', 'C19', 'C20']
